@@ -419,6 +419,15 @@ func init() {
 					}
 					return true
 				})
+				// … and the assertions of helpers whose body was put back into the function (an arm or a loop body
+				// extracted into a new function): type switches and assertions alike are TypeAssert instructions
+				walkFuncTree(fn, func(f *ssa.Function) {
+					eachInstr(f, func(in ssa.Instruction) {
+						if ta, ok := in.(*ssa.TypeAssert); ok {
+							cases[fname][shortAstType(ta.AssertedType)] = true
+						}
+					})
+				})
 			}
 			need := map[string][]string{
 				"renderNode":       {"ast.Heading", "ast.Paragraph", "ast.FencedCodeBlock", "ast.CodeBlock", "ast.Blockquote", "ast.List", "ast.ListItem", "ast.ThematicBreak", "ast.HTMLBlock", "ast.TextBlock", "extension/ast.Table"},
